@@ -13,6 +13,7 @@
 package c14
 
 import (
+	"errors"
 	"fmt"
 	"sort"
 	"strconv"
@@ -154,6 +155,37 @@ func chkTry(rt *rapid.T, rec *kit.Rec, sig string, call func() fp.Try[[]int], wa
 	}
 	if !eqInts(got.Get(), want) {
 		rec.Failf(rt, sig, "Success(%v), the defining equation gives Success(%v)", got.Get(), want)
+	}
+}
+
+// posErr is the error the failed operand at position i carries.
+func posErr(i int) error { return kit.Errs[i%len(kit.Errs)] }
+
+// chkTryFail: operands at two positions failed; the result must be the failure of the earlier position.
+func chkTryFail(rt *rapid.T, rec *kit.Rec, sig string, call func() fp.Try[[]int], want error) {
+	var got fp.Try[[]int]
+	rec.Guard(rt, sig, func() { got = call() })
+	if got.IsSuccess() {
+		rec.Failf(rt, sig, "Success(%v) although two operands failed", got.Get())
+	}
+	if e := got.Failed().Get(); !errors.Is(e, want) {
+		rec.Failf(rt, sig, "Failure(%s), the defining equation (operands in order) gives Failure(%s)", kit.ErrName(e), kit.ErrName(want))
+	}
+}
+
+// chkFutFail is chkTryFail for futures (all operands already completed).
+func chkFutFail(rt *rapid.T, rec *kit.Rec, sig string, call func() fp.Future[[]int], want error) {
+	var got fp.Future[[]int]
+	tasks := runFut(rt, rec, sig, func() { got = call() })
+	if !got.IsCompleted() {
+		rec.Failf(rt, sig, "the future never completes: operands all completed (two of them failed), %d executor tasks run, no task left", tasks)
+	}
+	r := got.Value()
+	if r.IsSuccess() {
+		rec.Failf(rt, sig, "future completed with Success(%v) although two operands failed", r.Get())
+	}
+	if e := r.Failed().Get(); !errors.Is(e, want) {
+		rec.Failf(rt, sig, "future completed with Failure(%s), the defining equation (operands in order) gives Failure(%s)", kit.ErrName(e), kit.ErrName(want))
 	}
 }
 
